@@ -96,6 +96,31 @@ func init() {
 	stdModels["(*bytes.Buffer).Bytes"] = stdModels["(*strings.Builder).String"]
 	stdModels["(*bytes.Buffer).Len"] = stdModels["(*strings.Builder).Len"]
 	stdModels["(*bytes.Buffer).Reset"] = stdModels["(*strings.Builder).Reset"]
+	// strings.ReplaceAll(s, old, new) with a one-byte constant old that does not occur in the constant new:
+	// the result is free of that byte
+	stdModels["strings.ReplaceAll"] = func(ec *evalCtx, call *ast.CallExpr, recv Value, args []Value) Value {
+		s0, o, n := scalar(args[0]), scalar(args[1]), scalar(args[2])
+		r := App("strings.ReplaceAll", SStr, s0, o, n)
+		if o.IsStr() && n.IsStr() && len(o.Str) == 1 && !strings.Contains(n.Str, o.Str) {
+			ec.st.Assume(ec.e().inL(r, ec.e().langs.NoByteStar(o.Str[0])))
+			ec.e().trusted["std:strings.ReplaceAll (no occurrence of a one-byte old remains when new does not contain it)"] = true
+		}
+		return r
+	}
+	// strconv.Unquote(s): the value the Go literal s denotes (uninterpreted; `unquoted(s)` in contracts) and an error
+	stdModels["strconv.Unquote"] = func(ec *evalCtx, call *ast.CallExpr, recv Value, args []Value) Value {
+		s0 := scalar(args[0])
+		errT := App("strconv.Unquote.err", SInt, s0)
+		ec.noteFailure(Not(Eq(errT, Int(0))))
+		return &TupleV{Vs: []Value{App("strconv.Unquote", SStr, s0), errT}}
+	}
+	// strconv.Quote(s): a double-quoted Go string literal; its body has no raw line feed and no raw double quote
+	stdModels["strconv.Quote"] = func(ec *evalCtx, call *ast.CallExpr, recv Value, args []Value) Value {
+		body := App("strconv.QuoteBody", SStr, scalar(args[0]))
+		ec.st.Assume(ec.e().inL(body, ec.e().langs.NoByteStar('\n')))
+		ec.e().trusted["std:strconv.Quote (result is \" body \" with a body free of raw line feeds)"] = true
+		return Concat(Str("\""), body, Str("\""))
+	}
 	// utf8.EncodeRune(p, r): the encoding of r is written over the first bytes of p (a []byte is a byte string here)
 	stdModels["unicode/utf8.EncodeRune"] = func(ec *evalCtx, call *ast.CallExpr, recv Value, args []Value) Value {
 		p, r := scalar(args[0]), scalar(args[1])
